@@ -85,4 +85,56 @@ func init() {
 			{Dir: "coinset", Name: "ZZ_C19_coinset", Variant: "steps=5", Tiers: "thorough", Reach: []string{"end"}, Tweak: params(false, "steps", 5)},
 		},
 	})
+	bloomCfg := func(kv ...interface{}) func(c *sym.HarnessCfg, tier string) {
+		return func(c *sym.HarnessCfg, tier string) {
+			c.UFRem = true
+			c.SymbolicMake = true
+			c.UFCalls = map[string]bool{"github.com/gcash/bchutil/bloom.MurmurHash3": true}
+			for i := 0; i+1 < len(kv); i += 2 {
+				c.Params[kv[i].(string)] = kv[i+1].(int)
+			}
+		}
+	}
+	reg(&PropSpec{
+		ID: "C09",
+		Harnesses: []HarnessSpec{
+			{Dir: "bloom", Name: "ZZ_C09_insert", Variant: "k<=4", Reach: []string{"end"}, Tweak: bloomCfg("maxk", 4)},
+			{Dir: "bloom", Name: "ZZ_C09_query", Variant: "k<=4", Reach: []string{"end"}, Tweak: bloomCfg("maxk", 4)},
+			{Dir: "bloom", Name: "ZZ_C09_murmur", Variant: "len<=12", Reach: []string{"end"}, Tweak: params(false, "maxlen", 12)},
+			{Dir: "bloom", Name: "ZZ_C09_sizing", Reach: []string{"end"}, Tweak: func(c *sym.HarnessCfg, tier string) {
+				c.SymbolicMake = true
+				c.MaxAlloc = 1 << 33
+				c.Backend = "cvc5"
+			}},
+			{Dir: "bloom", Name: "ZZ_C09_unloaded", Reach: []string{"end"}, Tweak: bloomCfg()},
+			{Dir: "bloom", Name: "ZZ_C09_insert", Variant: "k<=8", Tiers: "thorough", Reach: []string{"end"}, Tweak: bloomCfg("mink", 5, "maxk", 8)},
+			{Dir: "bloom", Name: "ZZ_C09_query", Variant: "k<=50", Tiers: "thorough", Reach: []string{"end"}, Tweak: bloomCfg("mink", 5, "maxk", 50)},
+			{Dir: "bloom", Name: "ZZ_C09_murmur", Variant: "len<=36", Tiers: "thorough", Reach: []string{"end"}, Tweak: params(false, "maxlen", 36)},
+		},
+	})
+	bloomStubs := func(kv ...interface{}) func(c *sym.HarnessCfg, tier string) {
+		f := bloomCfg(kv...)
+		return func(c *sym.HarnessCfg, tier string) {
+			f(c, tier)
+			c.Stubs = map[string]string{
+				"github.com/gcash/bchd/txscript.PushedData":     "zzStubPushedData",
+				"github.com/gcash/bchd/txscript.GetScriptClass": "zzStubScriptClass",
+				"(*github.com/gcash/bchd/wire.MsgTx).TxHash":    "zzStubTxHash",
+			}
+		}
+	}
+	reg(&PropSpec{
+		ID: "C10",
+		Harnesses: []HarnessSpec{
+			{Dir: "bloom", Name: "ZZ_C10_matchtx", Variant: "k<=1,out<=1,in<=1,pushes<=1", Reach: []string{"end"}, Tweak: bloomStubs("maxk", 1, "maxout", 1, "maxin", 1, "maxpushes", 1, "maxpushlen", 1)},
+			{Dir: "bloom", Name: "ZZ_C10_matchtx", Variant: "k<=2,out<=2,in<=1,pushes<=2", Tiers: "thorough", Reach: []string{"end"}, Tweak: bloomStubs("maxk", 2, "maxout", 2, "maxin", 1, "maxpushes", 2, "maxpushlen", 1)},
+		},
+	})
+	reg(&PropSpec{
+		ID:    "C20",
+		Level: "other",
+		Harnesses: []HarnessSpec{
+			{Dir: "bloom", Name: "ZZ_C20_locking", Reach: []string{"end"}, Tweak: bloomStubs("maxpushes", 1, "maxpushlen", 1)},
+		},
+	})
 }
